@@ -239,8 +239,8 @@ pub fn check_case(c: &DetCase, ctx: &mut Ctx, plain_bin: Option<&str>, max_sched
         let lo = i.saturating_sub(40);
         format!(
             "…{}… vs …{}…",
-            truncate(&a[lo.min(a.len())..], 120),
-            truncate(&b[lo.min(b.len())..], 120)
+a.chars().skip(lo).take(120).collect::<String>(),
+            b.chars().skip(lo).take(120).collect::<String>()
         )
     };
     // (0) same process, same everything, twice
